@@ -10,8 +10,11 @@ Rec == ndJsonDeserialize(IOEnv.TRACE)
 AllDevs == {"prefix_not_ignored_on_binary", "filter_after_index_outer_scope",
             "prefix_not_ignored_on_call"}
 
-PanicKinds == {"panic:filter-first", "panic:filter-on-map", "panic:function-argument-without-values",
-               "panic:substring-inside-character"}
+\* error kinds of the specification that stand for an abnormal end of the implementation.  After the
+\* fix commits 650f5a6 (substring), 9c67bd0 (filter on a map), b05f18c (function argument without a
+\* value) and b475f49 (rule reference cycle) the only one left is a query that starts with a filter,
+\* which the parser does not produce.
+PanicKinds == {"panic:filter-first"}
 
 TabOf(line) == IF "tab" \in DOMAIN line THEN line.tab ELSE <<>>
 Den(line, dev) == DenoteT(line.prog, line.doc, dev, TabOf(line))
